@@ -106,7 +106,7 @@ def gen_cases(rng, tier):
             b = rng.choice([v for v in [0, 1, 2, 3, 2**62, 2**62 + 1] if v >= a])
             return R(P(a, rng.randint(1, 3), rng.randint(0, 2)), P(b, rng.randint(1, 3), rng.randint(0, 2)))
         add("Rel-inconsistent", Con("Rel", rp(), rp()))
-    n = 250 if tier == "quick" else 20000
+    n = 600 if tier == "quick" else 20000
     for _ in range(n):
         k = rng.random()
         if k < 0.4:
